@@ -282,11 +282,40 @@ def check_props(ctx, extra_files=()):
     return obligations, discharged, assumptions, names_all
 
 
+_SRC_MODULE = []
+
+
+def src_module():
+    """the module through which the cases run the regenerated code: SrcGlue when the source layer
+    builds on this tree, else the stub that falls back on the hand-written model (the broken
+    obligations are reported by check_props)"""
+    if not _SRC_MODULE:
+        cdir = os.path.join(COQ, "cases")
+        os.makedirs(cdir, exist_ok=True)
+        fname = "probe_src_%d.v" % os.getpid()
+        with open(os.path.join(cdir, fname), "w") as fh:
+            fh.write("From MV Require Import SrcGlue.\n")
+        with build_lock(False):
+            rc, _ = coqc("cases/" + fname)
+        for ext in (".v", ".vo", ".vok", ".vos", ".glob"):
+            with contextlib.suppress(OSError):
+                os.remove(os.path.join(cdir, fname[:-2] + ext))
+        with contextlib.suppress(OSError):
+            os.remove(os.path.join(cdir, "." + fname[:-2] + ".aux"))
+        _SRC_MODULE.append("SrcGlue" if rc == 0 else "SrcGlueStub")
+    return _SRC_MODULE[0]
+
+
 def coq_eval_cases(ctx, name, imports, case_terms, check_fn, per_file=400, extra_defs=""):
     """Evaluate `check_fn case` (a Coq bool function) on every case term inside Coq
     (vm_compute) and return the indices for which it is false."""
     cdir = os.path.join(COQ, "cases")
     os.makedirs(cdir, exist_ok=True)
+    if " SrcGlue" in imports and src_module() != "SrcGlue":
+        imports = imports.replace(" SrcGlue", " SrcGlueStub")
+        note = "the regenerated code could not be run on the cases (source layer does not build): model-only correspondence"
+        if note not in ctx.notes:
+            ctx.notes.append(note)
     files = []
     for fno, lo in enumerate(range(0, len(case_terms), per_file)):
         chunk = case_terms[lo:lo + per_file]
@@ -320,10 +349,23 @@ def coq_eval_cases(ctx, name, imports, case_terms, check_fn, per_file=400, extra
         return [lo + int(x) for x in re.findall(r"\d+", txt)]
 
     bad = []
+
+    def guarded(item):
+        try:
+            return one(item), None
+        except RuntimeError as e:
+            return [], str(e)
+    failed = 0
     with ThreadPoolExecutor(max_workers=NCPU) as ex:
-        for r in ex.map(one, files):
+        for r, err in ex.map(guarded, files):
             bad += r
-    ctx.traces += len(case_terms)
+            if err:
+                failed += 1
+                if failed == 1:
+                    # the model could not be evaluated on these cases: reported as a broken tie; the
+                    # direct oracles of the property still run
+                    ctx.broken.append({"file": "cases:" + name, "theorems": [], "log": err[-2500:]})
+    ctx.traces += len(case_terms) if not failed else 0
     return sorted(bad)
 
 
